@@ -112,6 +112,7 @@ type Exec struct {
 	w        *bufio.Writer
 	rng      *rand.Rand
 	virtual  bool
+	ctlDiffer     int  // before the last Control: uuids named by the directory vs uuids of schema.json: 1 differ, 0 agree, -1 unknown
 	repairTouched bool // the last Repair changed, added or removed an object file
 	lastColl []Flat // what the last Collect / One returned, in the order it was returned
 	lastRev  bool
@@ -232,6 +233,123 @@ func (e *Exec) emit(format string, a ...interface{}) {
 	l := fmt.Sprintf(format, a...)
 	e.obs = append(e.obs, l)
 	fmt.Fprintln(e.w, l)
+}
+
+// unindexableAfterRepair: uuid numbers of the object files that are not indexed (after a Repair that
+// returned an error) and that Repair could not have indexed: unreadable, or holding a value of a unique
+// field that an indexed object (another uuid) holds. Computed from the directory and the live index.
+func (e *Exec) unindexableAfterRepair() []int {
+	var s *sod.Schema
+	var err error
+	if safe(func() { s, err = e.db.Schema(e.of()) }) != nil || s == nil || (err != nil && !sod.IsIndexCorrupted(err)) || s.ObjectIndex == nil {
+		return nil
+	}
+	indexed := map[string]bool{}
+	e.db.RLock()
+	for _, u := range s.ObjectIndex.ObjectIds {
+		indexed[u] = true
+	}
+	e.db.RUnlock()
+	dir := e.colDir()
+	ents, _ := os.ReadDir(dir)
+	type cand struct {
+		u   int
+		bad bool
+		f   Flat
+	}
+	var cands []cand
+	var held []Flat
+	for _, d := range ents {
+		name := d.Name()
+		pre := name
+		if i := strings.IndexByte(name, '.'); i >= 0 {
+			pre = name[:i]
+		}
+		if name == sod.SchemaFilename || !uuidNameRe.MatchString(pre) {
+			continue
+		}
+		data, rerr := readMaybeGz(filepath.Join(dir, name))
+		var r shape.Rec
+		if rerr == nil {
+			rerr = json.NewDecoder(strings.NewReader(string(data))).Decode(&r)
+		}
+		if indexed[pre] {
+			if rerr == nil {
+				held = append(held, recToFlat(&r, e.unum(pre)))
+			}
+			continue
+		}
+		cands = append(cands, cand{u: e.unum(pre), bad: rerr != nil || d.IsDir(), f: recToFlat(&r, e.unum(pre))})
+	}
+	var out []int
+	for _, c := range cands {
+		no := c.bad
+		for i := 0; i < NF && !no; i++ {
+			if e.cfg.Cons[i][1] != '1' {
+				continue
+			}
+			for _, h := range held {
+				if h.U != c.f.U && h.K[i] == c.f.K[i] {
+					no = true
+					break
+				}
+			}
+		}
+		if no {
+			out = append(out, c.u)
+		}
+	}
+	sort.Ints(out)
+	return out
+}
+
+var uuidNameRe = regexp.MustCompile(`^(?i:[0-9a-f]{8}-[0-9a-f]{4}-[0-9a-f]{4}-[0-9a-f]{4}-[0-9a-f]{12})$`)
+
+// setsDiffer: the harness's own reading of "the set of indexed objects differs from the set of
+// object files": entries of the collection directory whose name up to the first dot is a uuid
+// (any letter case) against the values of index.object-ids in schema.json (what a handle in
+// synchronous mode has in memory after any completed call)
+func (e *Exec) setsDiffer() int {
+	dir := e.colDir()
+	ents, err := os.ReadDir(dir)
+	if err != nil {
+		return -1
+	}
+	onDisk := map[string]bool{}
+	for _, d := range ents {
+		name := d.Name()
+		if i := strings.IndexByte(name, '.'); i >= 0 {
+			name = name[:i]
+		}
+		if uuidNameRe.MatchString(name) {
+			onDisk[name] = true
+		}
+	}
+	data, err := os.ReadFile(filepath.Join(dir, sod.SchemaFilename))
+	if err != nil {
+		return -1
+	}
+	var top struct {
+		Index struct {
+			Ids map[string]string `json:"object-ids"`
+		} `json:"index"`
+	}
+	if json.Unmarshal(data, &top) != nil {
+		return -1
+	}
+	indexed := map[string]bool{}
+	for _, u := range top.Index.Ids {
+		indexed[u] = true
+	}
+	if len(indexed) != len(onDisk) {
+		return 1
+	}
+	for u := range indexed {
+		if !onDisk[u] {
+			return 1
+		}
+	}
+	return 0
 }
 
 // objFilesHash: digest of names and bytes of every entry of the collection directory but schema.json
@@ -752,6 +870,7 @@ func (e *Exec) step(t []string) {
 	case "flushallc":
 		e.emit("r %s", cls(db.FlushAllAndCommit(e.of())))
 	case "control":
+		e.ctlDiffer = e.setsDiffer()
 		e.emit("r %s", cls(db.Control()))
 	case "repair":
 		// the order in which Repair meets unindexed files is Go map order: read it off the
@@ -778,6 +897,18 @@ func (e *Exec) step(t []string) {
 		for _, x := range strings.Fields(e.newIdsOrder(before)) {
 			if !seen[e.ustr(atoi(x))] {
 				opened = append(opened, x)
+			}
+		}
+		if err != nil {
+			// Repair stopped at some file (unreadable, or conflicting with a unique constraint). When
+			// that read was served by the cache no file was opened: the file it stopped at is one of
+			// the files still unindexed that cannot be indexed; any of them, met first after the files
+			// that did get indexed, gives the same outcome
+			for _, x := range e.unindexableAfterRepair() {
+				if !seen[e.ustr(x)] {
+					seen[e.ustr(x)] = true
+					opened = append(opened, strconv.Itoa(x))
+				}
 			}
 		}
 		e.emit("o order %s", strings.Join(opened, " "))
